@@ -1,4 +1,9 @@
-(* Proofs about the model of mstr.CompareNatural (C20). *)
+(* Proofs about the model of mstr.CompareNatural (C20).
+   Everything up to [cn_key_w] is for BOTH variants of the accumulator ([wrap] = true: 64-bit int as
+   in Go; false: unbounded) and for ALL strings: the comparison is the key order on the keys read
+   with that accumulator.  The order laws therefore hold with no hypothesis at all; the numeric
+   reading and the "0 iff equal up to leading zeros" clause hold exactly where the two keys
+   coincide ([runs_fit]: every digit run is below 2^63), and fail beyond (overflow_refuted). *)
 From Coq Require Import ZArith List Bool Lia.
 Import ListNotations.
 From Mds Require Import Gen.MstrMasks Mbits.BytesBase Mbits.MbitsProofs Mstr.MstrModel Mstr.MstrSpec Mstr.MstrProofsTrunc.
@@ -113,9 +118,9 @@ Qed.
 
 (* ---------------------------------------------------------------- the parsing loops as list functions *)
 
-Fixpoint digits_val (s : list Z) (v : Z) : Z * list Z :=
+Fixpoint digits_val (wrap : bool) (s : list Z) (v : Z) : Z * list Z :=
   match s with
-  | c :: t => if is_digit c then digits_val t (wrap64 (pi_acc v c)) else (v, s)
+  | c :: t => if is_digit c then digits_val wrap t (int_of wrap (pi_acc v c)) else (v, s)
   | [] => (v, [])
   end.
 
@@ -144,12 +149,12 @@ Proof.
   apply skipn_nth_cons. lia.
 Qed.
 
-Lemma pi_loop_run : forall s fuel i v, 0 <= i <= zlen s -> (Z.to_nat (zlen s - i) < fuel)%nat ->
-  exists v' r, digits_val (skipn (Z.to_nat i) s) v = (v', r) /\
-    pi_loop fuel s i v = Ok (zlen s - zlen r, v') /\
+Lemma pi_loop_run : forall wrap s fuel i v, 0 <= i <= zlen s -> (Z.to_nat (zlen s - i) < fuel)%nat ->
+  exists v' r, digits_val wrap (skipn (Z.to_nat i) s) v = (v', r) /\
+    pi_loop wrap fuel s i v = Ok (zlen s - zlen r, v') /\
     skipn (Z.to_nat (zlen s - zlen r)) s = r /\ zlen r <= zlen s - i.
 Proof.
-  intros s. induction fuel as [|f IH]; intros i v Hi Hf; [lia|].
+  intros wrap s. induction fuel as [|f IH]; intros i v Hi Hf; [lia|].
   cbn [pi_loop]. unfold pi_for, pi_step.
   destruct (Z.eq_dec i (zlen s)) as [->|Hne].
   - assert (Hsk : skipn (Z.to_nat (zlen s)) s = []) by (unfold zlen; rewrite Nat2Z.id; apply skipn_all).
@@ -161,7 +166,7 @@ Proof.
     replace (i <? zlen s) with true by (symmetry; apply Z.ltb_lt; lia). cbn [andb].
     rewrite (skipn_step s i) by lia. cbn [digits_val].
     destruct (is_digit (nth (Z.to_nat i) s 0)) eqn:Hd.
-    + cbn [bind]. destruct (IH (i + 1) (wrap64 (pi_acc v (nth (Z.to_nat i) s 0)))) as (v' & r & H1 & H2 & H3 & H4); [lia|lia|].
+    + cbn [bind]. destruct (IH (i + 1) (int_of wrap (pi_acc v (nth (Z.to_nat i) s 0)))) as (v' & r & H1 & H2 & H3 & H4); [lia|lia|].
       exists v', r. rewrite H1, H2. repeat split; try assumption. lia.
     + exists v, (nth (Z.to_nat i) s 0 :: skipn (Z.to_nat (i + 1)) s).
       rewrite <- (skipn_step s i) by lia.
@@ -187,11 +192,11 @@ Qed.
 Lemma zlen_nonneg : forall (s : list Z), 0 <= zlen s.
 Proof. intros. unfold zlen. lia. Qed.
 
-Lemma parse_int_run : forall s, exists v r, digits_val s 0 = (v, r) /\
-  parse_int s = Ok (v, r, zlen s - zlen r >? 0) /\ zlen r <= zlen s.
+Lemma parse_int_run : forall wrap s, exists v r, digits_val wrap s 0 = (v, r) /\
+  parse_int wrap s = Ok (v, r, zlen s - zlen r >? 0) /\ zlen r <= zlen s.
 Proof.
-  intros s. unfold parse_int.
-  destruct (pi_loop_run s (S (length s)) 0 0) as (v & r & H1 & H2 & H3 & H4).
+  intros wrap s. unfold parse_int.
+  destruct (pi_loop_run wrap s (S (length s)) 0 0) as (v & r & H1 & H2 & H3 & H4).
   - pose proof (zlen_nonneg s). lia.
   - unfold zlen. lia.
   - cbn [Z.to_nat skipn] in H1. exists v, r. split; [exact H1|].
@@ -244,63 +249,41 @@ Qed.
 
 (* ---------------------------------------------------------------- keys of the parsed pieces *)
 
+(* the key read with the model's accumulator *)
+Definition gkey (wrap : bool) (s : list Z) : list tok := key_aux_w (int_of wrap) s None.
+
 Definition head_nd (r : list Z) : Prop := match r with c :: _ => digit c = false | [] => True end.
 Definition head_d (r : list Z) : Prop := match r with c :: _ => digit c = true | [] => True end.
 
-Lemma wrap64_small : forall z, - 2 ^ 63 <= z < 2 ^ 63 -> wrap64 z = z.
-Proof. intros z Hz. unfold wrap64. rewrite Z.mod_small by lia. lia. Qed.
-
-Lemma digit_range : forall c, digit c = true -> 0 <= c - 48 <= 9.
-Proof. intros c H. unfold digit in H. apply andb_prop in H. destruct H as [H1 H2]. apply Z.leb_le in H1, H2. lia. Qed.
-
-Lemma pow10_18 : 10 ^ 18 < 2 ^ 63.
-Proof. reflexivity. Qed.
-
-Lemma dv_key : forall s k v, runs_within 18 s k = true -> (k <= 18)%nat -> 0 <= v < 10 ^ Z.of_nat k ->
-  exists v' r, digits_val s v = (v', r) /\ key_aux s (Some v) = TNum v' :: key_aux r None /\
-    runs_within 18 r 0 = true /\ head_nd r /\ (length r <= length s)%nat.
+Lemma dv_key_w : forall wrap s v,
+  exists v' r, digits_val wrap s v = (v', r) /\
+    key_aux_w (int_of wrap) s (Some v) = TNum v' :: key_aux_w (int_of wrap) r None /\
+    head_nd r /\ (length r <= length s)%nat.
 Proof.
-  induction s as [|c t IH]; intros k v Hr Hk Hv.
+  intros wrap. induction s as [|c t IH]; intros v.
   - exists v, []. cbn. repeat split; auto.
-  - cbn [digits_val key_aux runs_within] in *. rewrite is_digit_eq.
+  - cbn [digits_val key_aux_w]. rewrite is_digit_eq.
     destruct (digit c) eqn:Hd.
-    + apply andb_prop in Hr. destruct Hr as [Hk' Hr]. apply Nat.ltb_lt in Hk'.
-      pose proof (digit_range c Hd) as Hc.
-      assert (Hp : 10 ^ Z.of_nat (S k) = 10 * 10 ^ Z.of_nat k) by (rewrite Nat2Z.inj_succ, Z.pow_succ_r by lia; reflexivity).
-      assert (Hle : 10 ^ Z.of_nat (S k) <= 10 ^ 18) by (apply Z.pow_le_mono_r; lia).
-      pose proof pow10_18.
-      assert (Hacc : wrap64 (pi_acc v c) = v * 10 + (c - 48)) by (unfold pi_acc; apply wrap64_small; lia).
-      rewrite Hacc.
-      destruct (IH (S k) (v * 10 + (c - 48)) Hr ltac:(lia) ltac:(lia)) as (v' & r & H1 & H2 & H3 & H4 & H5).
+    + destruct (IH (int_of wrap (pi_acc v c))) as (v' & r & H1 & H2 & H3 & H4).
       exists v', r. repeat split; auto. cbn [length]. lia.
-    + exists v, (c :: t). cbn [flush app key_aux runs_within head_nd length]. rewrite Hd. repeat split; auto.
+    + exists v, (c :: t). cbn [flush app key_aux_w head_nd length]. rewrite Hd. repeat split; auto.
 Qed.
 
-Lemma digit_start : forall x a, digit x = true -> runs_within 18 (x :: a) 0 = true ->
-  exists va ra, digits_val (x :: a) 0 = (va, ra) /\ key (x :: a) = TNum va :: key ra /\
-    short_runs ra /\ head_nd ra /\ (length ra <= length a)%nat.
+Lemma digit_start_w : forall wrap x a, digit x = true ->
+  exists va ra, digits_val wrap (x :: a) 0 = (va, ra) /\ gkey wrap (x :: a) = TNum va :: gkey wrap ra /\
+    head_nd ra /\ (length ra <= length a)%nat.
 Proof.
-  intros x a Hd Hr. unfold key. cbn [digits_val key_aux runs_within] in *. rewrite is_digit_eq, Hd in *.
-  apply andb_prop in Hr. destruct Hr as [_ Hr].
-  pose proof (digit_range x Hd) as Hc. pose proof pow10_18.
-  assert (Hacc : wrap64 (pi_acc 0 x) = x - 48) by (unfold pi_acc; rewrite wrap64_small; lia).
-  rewrite Hacc.
-  destruct (dv_key a 1 (x - 48) Hr ltac:(lia) ltac:(change (10 ^ Z.of_nat 1) with 10; lia)) as (v' & r & H1 & H2 & H3 & H4 & H5).
+  intros wrap x a Hd. unfold gkey. cbn [digits_val key_aux_w]. rewrite is_digit_eq, Hd.
+  replace (x - 48) with (pi_acc 0 x) by (unfold pi_acc; lia).
+  destruct (dv_key_w wrap a (int_of wrap (pi_acc 0 x))) as (v' & r & H1 & H2 & H3 & H4).
   exists v', r. repeat split; auto.
 Qed.
 
-Lemma key_take_drop : forall s, key s = map TByte (take_nd s) ++ key (drop_nd s).
+Lemma gkey_take_drop : forall wrap s, gkey wrap s = map TByte (take_nd s) ++ gkey wrap (drop_nd s).
 Proof.
-  unfold key. induction s as [|c t IH]; [reflexivity|].
+  intros wrap. unfold gkey. induction s as [|c t IH]; [reflexivity|].
   cbn [take_nd drop_nd]. destruct (is_digit c) eqn:Hd; [reflexivity|].
-  cbn [key_aux map app]. rewrite <- is_digit_eq, Hd. cbn [flush app]. f_equal. exact IH.
-Qed.
-
-Lemma runs_drop : forall s, runs_within 18 s 0 = true -> runs_within 18 (drop_nd s) 0 = true.
-Proof.
-  induction s as [|c t IH]; intros H; [reflexivity|].
-  cbn [drop_nd]. destruct (is_digit c) eqn:Hd; [exact H|].
-  apply IH. cbn [runs_within] in H. rewrite <- is_digit_eq, Hd in H. exact H.
+  cbn [key_aux_w map app]. rewrite <- is_digit_eq, Hd. cbn [flush app]. f_equal. exact IH.
 Qed.
 
 Lemma drop_head : forall s, head_d (drop_nd s).
@@ -309,25 +292,25 @@ Proof.
   cbn [head_d]. rewrite <- is_digit_eq. exact Hd.
 Qed.
 
-Lemma key_aux_some_head : forall t v, exists v' rest, key_aux t (Some v) = TNum v' :: rest.
+Lemma key_aux_w_some_head : forall f t v, exists v' rest, key_aux_w f t (Some v) = TNum v' :: rest.
 Proof.
-  induction t as [|c t IH]; intros v; cbn [key_aux].
+  intros f. induction t as [|c t IH]; intros v; cbn [key_aux_w].
   - exists v, []. reflexivity.
-  - destruct (digit c); [apply IH|]. exists v, (TByte c :: key_aux t None). reflexivity.
+  - destruct (digit c); [apply IH|]. exists v, (TByte c :: key_aux_w f t None). reflexivity.
 Qed.
 
 Definition num_or_nil (k : list tok) : Prop := match k with [] => True | TNum _ :: _ => True | TByte _ :: _ => False end.
 
-Lemma key_head_d : forall r, head_d r -> num_or_nil (key r).
+Lemma gkey_head_d : forall wrap r, head_d r -> num_or_nil (gkey wrap r).
 Proof.
-  intros r H. destruct r as [|c t]; [exact I|]. cbn [head_d] in H. unfold key. cbn [key_aux]. rewrite H.
-  destruct (key_aux_some_head t (c - 48)) as (v' & rest & ->). exact I.
+  intros wrap r H. destruct r as [|c t]; [exact I|]. cbn [head_d] in H. unfold gkey. cbn [key_aux_w]. rewrite H.
+  destruct (key_aux_w_some_head (int_of wrap) t (int_of wrap (c - 48))) as (v' & rest & ->). exact I.
 Qed.
 
-Lemma key_nonempty : forall c t, key (c :: t) <> [].
+Lemma gkey_nonempty : forall wrap c t, gkey wrap (c :: t) <> [].
 Proof.
-  intros c t. unfold key. cbn [key_aux]. destruct (digit c).
-  - destruct (key_aux_some_head t (c - 48)) as (v' & rest & ->). discriminate.
+  intros wrap c t. unfold gkey. cbn [key_aux_w]. destruct (digit c).
+  - destruct (key_aux_w_some_head (int_of wrap) t (int_of wrap (c - 48))) as (v' & rest & ->). discriminate.
   - cbn. discriminate.
 Qed.
 
@@ -346,85 +329,111 @@ Qed.
 
 (* ---------------------------------------------------------------- the comparison loop *)
 
+(* one iteration with the generated selectors (which variable is passed / assigned / returned
+   where) evaluated: this is the Go loop body as written.  A swapped argument or assignment in the
+   source changes a selector and this lemma no longer holds by computation. *)
+Lemma cn_loop_S : forall wrap f a b,
+  cn_loop wrap (S f) a b =
+    if nonempty a && nonempty b then
+      bind (parse_int wrap a) (fun '(va, ra, aok) =>
+      bind (parse_int wrap b) (fun '(vb, rb, bok) =>
+      if aok && bok then
+        let c := cmp_int va vb in
+        if negb (c =? 0) then Ok c else cn_loop wrap f ra rb
+      else if negb (Bool.eqb aok bok) then Ok (cmp_bytes a b)
+      else
+        bind (parse_str a) (fun '(pa, ra') =>
+        bind (parse_str b) (fun '(pb, rb') =>
+        let c := cmp_bytes pa pb in
+        if negb (c =? 0) then Ok c else cn_loop wrap f ra' rb'))))
+    else Ok (cmp_bytes a b).
+Proof. reflexivity. Qed.
+
+(* the statement skeletons of the functions the models were written against *)
+Lemma mstr_shapes :
+  trunc_shape = 1017337627220545359 /\ cn_shape_num = 18849763984918589742251530495430975311 /\
+  pi_shape = 62594060111 /\ ps_shape = 3912142671 /\
+  cn_ncalls_compare = 4 /\ cn_ncalls_parseint = 2 /\ cn_ncalls_parsestr = 2.
+Proof. repeat split; reflexivity. Qed.
+
 Definition same_head (a b : list Z) : Prop :=
   match a, b with x :: _, y :: _ => digit x = digit y | _, _ => True end.
 
-Lemma parse_int_digit : forall x a, digit x = true -> runs_within 18 (x :: a) 0 = true ->
-  exists va ra, parse_int (x :: a) = Ok (va, ra, true) /\ key (x :: a) = TNum va :: key ra /\
-    short_runs ra /\ head_nd ra /\ (length ra <= length a)%nat.
+Lemma parse_int_digit : forall wrap x a, digit x = true ->
+  exists va ra, parse_int wrap (x :: a) = Ok (va, ra, true) /\ gkey wrap (x :: a) = TNum va :: gkey wrap ra /\
+    head_nd ra /\ (length ra <= length a)%nat.
 Proof.
-  intros x a Hd Hr.
-  destruct (digit_start x a Hd Hr) as (va & ra & H1 & H2 & H3 & H4 & H5).
-  destruct (parse_int_run (x :: a)) as (v & r & G1 & G2 & G3).
+  intros wrap x a Hd.
+  destruct (digit_start_w wrap x a Hd) as (va & ra & H1 & H2 & H4 & H5).
+  destruct (parse_int_run wrap (x :: a)) as (v & r & G1 & G2 & G3).
   rewrite H1 in G1. inversion G1; subst v r.
   exists va, ra. split; [|auto].
   rewrite G2. do 3 f_equal. unfold zlen. cbn [length]. apply Z.gtb_lt. lia.
 Qed.
 
-Lemma parse_int_nondigit : forall x a, digit x = false -> parse_int (x :: a) = Ok (0, x :: a, false).
+Lemma parse_int_nondigit : forall wrap x a, digit x = false -> parse_int wrap (x :: a) = Ok (0, x :: a, false).
 Proof.
-  intros x a Hd. destruct (parse_int_run (x :: a)) as (v & r & G1 & G2 & G3).
+  intros wrap x a Hd. destruct (parse_int_run wrap (x :: a)) as (v & r & G1 & G2 & G3).
   cbn [digits_val] in G1. rewrite is_digit_eq, Hd in G1. inversion G1; subst v r.
   rewrite G2. rewrite Z.sub_diag. reflexivity.
 Qed.
 
-Lemma cn_main : forall fuel a b, short_runs a -> short_runs b -> same_head a b ->
+Lemma cn_main : forall wrap fuel a b, same_head a b ->
   (length a + length b < fuel)%nat ->
-  cn_loop fuel a b = Ok (lex_cmp (key a) (key b)).
+  cn_loop wrap fuel a b = Ok (lex_cmp (gkey wrap a) (gkey wrap b)).
 Proof.
-  induction fuel as [|f IH]; intros a b Ha Hb Hh Hf; [lia|].
-  cbn [cn_loop]. unfold cn_for.
+  intros wrap. induction fuel as [|f IH]; intros a b Hh Hf; [lia|].
+  rewrite cn_loop_S.
   destruct a as [|x a]; [|destruct b as [|y b]].
   - cbn [nonempty andb]. destruct b as [|y b]; [reflexivity|].
-    cbn [cmp_bytes]. change (key []) with (@nil tok). pose proof (key_nonempty y b).
-    destruct (key (y :: b)); [congruence|reflexivity].
-  - cbn [nonempty andb cmp_bytes]. change (key []) with (@nil tok). pose proof (key_nonempty x a).
-    destruct (key (x :: a)); [congruence|reflexivity].
-  - cbn [nonempty andb]. cbn [same_head] in Hh. unfold short_runs in Ha, Hb.
+    cbn [cmp_bytes]. change (gkey wrap []) with (@nil tok). pose proof (gkey_nonempty wrap y b).
+    destruct (gkey wrap (y :: b)); [congruence|reflexivity].
+  - cbn [nonempty andb cmp_bytes]. change (gkey wrap []) with (@nil tok). pose proof (gkey_nonempty wrap x a).
+    destruct (gkey wrap (x :: a)); [congruence|reflexivity].
+  - cbn [nonempty andb]. cbn [same_head] in Hh.
     destruct (digit x) eqn:Hx.
     + (* both start with digits *)
-      destruct (parse_int_digit x a Hx Ha) as (va & ra & P1 & K1 & R1 & N1 & L1).
-      destruct (parse_int_digit y b (eq_sym Hh) Hb) as (vb & rb & P2 & K2 & R2 & N2 & L2).
-      rewrite P1, P2. cbn [bind]. unfold cn_both, cn_num_ne. cbn [andb].
+      destruct (parse_int_digit wrap x a Hx) as (va & ra & P1 & K1 & N1 & L1).
+      destruct (parse_int_digit wrap y b (eq_sym Hh)) as (vb & rb & P2 & K2 & N2 & L2).
+      rewrite P1, P2. cbn [bind andb]. cbv zeta.
       rewrite K1, K2. cbn [lex_cmp tok_cmp]. change (cmp_int va vb) with (sgn_cmp va vb).
       destruct (sgn_cmp va vb =? 0); cbn [negb]; [|reflexivity].
-      apply IH; try assumption; [|cbn [length] in Hf; lia].
+      apply IH; [|cbn [length] in Hf; lia].
       destruct ra, rb; cbn [same_head head_nd] in *; congruence.
     + (* both start with non-digits *)
-      rewrite (parse_int_nondigit x a Hx), (parse_int_nondigit y b (eq_sym Hh)). cbn [bind].
-      unfold cn_both, cn_mixed, cn_str_ne. cbn [andb Bool.eqb negb].
-      rewrite !parse_str_run. cbn [bind].
-      rewrite (key_take_drop (x :: a)), (key_take_drop (y :: b)).
-      rewrite lex_bytes by (apply key_head_d, drop_head).
+      rewrite (parse_int_nondigit wrap x a Hx), (parse_int_nondigit wrap y b (eq_sym Hh)). cbn [bind].
+      cbn [andb Bool.eqb negb].
+      rewrite !parse_str_run. cbn [bind]. cbv zeta.
+      rewrite (gkey_take_drop wrap (x :: a)), (gkey_take_drop wrap (y :: b)).
+      rewrite lex_bytes by (apply gkey_head_d, drop_head).
       destruct (cmp_bytes (take_nd (x :: a)) (take_nd (y :: b)) =? 0); cbn [negb]; [|reflexivity].
       apply IH.
-      * apply runs_drop. exact Ha.
-      * apply runs_drop. exact Hb.
       * pose proof (drop_head (x :: a)) as D1. pose proof (drop_head (y :: b)) as D2.
         destruct (drop_nd (x :: a)), (drop_nd (y :: b)); cbn [same_head head_d] in *; congruence.
       * cbn [drop_nd]. rewrite !is_digit_eq, Hx, <- Hh.
         pose proof (drop_nd_len a). pose proof (drop_nd_len b). cbn [length] in Hf. lia.
 Qed.
 
-(* CompareNatural is the token-key order, for digit runs of at most 18 digits *)
-Theorem compare_natural_key : forall a b, short_runs a -> short_runs b ->
-  compare_natural a b = Ok (key_cmp (key a) (key b)).
+(* Both variants, ALL strings: the comparison is the key order on the keys read with the
+   variant's accumulator. *)
+Theorem cn_key_w : forall wrap a b,
+  cn_loop wrap (S (length a + length b)) a b = Ok (key_cmp (gkey wrap a) (gkey wrap b)).
 Proof.
-  intros a b Ha Hb. unfold compare_natural.
+  intros wrap a b.
   destruct a as [|x a]; [|destruct b as [|y b]].
-  - rewrite cn_main; try assumption; [|exact I|lia]. change (key []) with (@nil tok). reflexivity.
-  - rewrite cn_main; try assumption; [|exact I|lia]. change (key []) with (@nil tok).
-    unfold key_cmp. destruct (key (x :: a)); reflexivity.
+  - rewrite cn_main; [|exact I|lia]. change (gkey wrap []) with (@nil tok). reflexivity.
+  - rewrite cn_main; [|exact I|lia]. change (gkey wrap []) with (@nil tok).
+    unfold key_cmp. destruct (gkey wrap (x :: a)); reflexivity.
   - destruct (digit x) eqn:Hx; destruct (digit y) eqn:Hy.
-    + rewrite cn_main; try assumption; [|cbn [same_head]; congruence|lia].
-      destruct (parse_int_digit x a Hx Ha) as (va & ra & _ & K1 & _).
-      destruct (parse_int_digit y b Hy Hb) as (vb & rb & _ & K2 & _).
+    + rewrite cn_main; [|cbn [same_head]; congruence|lia].
+      destruct (parse_int_digit wrap x a Hx) as (va & ra & _ & K1 & _).
+      destruct (parse_int_digit wrap y b Hy) as (vb & rb & _ & K2 & _).
       rewrite K1, K2. reflexivity.
     + (* digit against non-digit: decided by the first bytes *)
-      cbn [cn_loop]. unfold cn_for. cbn [nonempty andb].
-      destruct (parse_int_digit x a Hx Ha) as (va & ra & P1 & K1 & _).
-      rewrite P1, (parse_int_nondigit y b Hy). cbn [bind]. unfold cn_both, cn_mixed. cbn [andb Bool.eqb negb].
-      rewrite K1. unfold key at 2. cbn [key_aux]. rewrite Hy. cbn [flush app key_cmp tok_cmp andb cmp_bytes].
+      rewrite cn_loop_S. cbn [nonempty andb].
+      destruct (parse_int_digit wrap x a Hx) as (va & ra & P1 & K1 & _).
+      rewrite P1, (parse_int_nondigit wrap y b Hy). cbn [bind]. cbn [andb Bool.eqb negb].
+      rewrite K1. unfold gkey at 2. cbn [key_aux_w]. rewrite Hy. cbn [flush app key_cmp tok_cmp andb cmp_bytes].
       unfold digit in Hx, Hy. apply andb_prop in Hx. destruct Hx as [X1 X2]. apply Z.leb_le in X1, X2.
       f_equal. destruct (y <? 48) eqn:Y1.
       * apply Z.ltb_lt in Y1. cbn. replace (x <? y) with false by (symmetry; apply Z.ltb_ge; lia).
@@ -433,10 +442,10 @@ Proof.
         { destruct (48 <=? y) eqn:E1; destruct (y <=? 57) eqn:E2; cbn [andb] in Hy; try discriminate;
             [apply Z.leb_gt in E2; lia | apply Z.leb_gt in E1; lia | apply Z.leb_gt in E1; lia]. }
         cbn. replace (x <? y) with true by (symmetry; apply Z.ltb_lt; lia). reflexivity.
-    + cbn [cn_loop]. unfold cn_for. cbn [nonempty andb].
-      destruct (parse_int_digit y b Hy Hb) as (vb & rb & P2 & K2 & _).
-      rewrite P2, (parse_int_nondigit x a Hx). cbn [bind]. unfold cn_both, cn_mixed. cbn [andb Bool.eqb negb].
-      rewrite K2. unfold key at 1. cbn [key_aux]. rewrite Hx. cbn [flush app key_cmp tok_cmp andb cmp_bytes].
+    + rewrite cn_loop_S. cbn [nonempty andb].
+      destruct (parse_int_digit wrap y b Hy) as (vb & rb & P2 & K2 & _).
+      rewrite P2, (parse_int_nondigit wrap x a Hx). cbn [bind]. cbn [andb Bool.eqb negb].
+      rewrite K2. unfold gkey at 1. cbn [key_aux_w]. rewrite Hx. cbn [flush app key_cmp tok_cmp andb cmp_bytes].
       unfold digit in Hx, Hy. apply andb_prop in Hy. destruct Hy as [Y1 Y2]. apply Z.leb_le in Y1, Y2.
       f_equal. destruct (x <? 48) eqn:X1.
       * apply Z.ltb_lt in X1. cbn. replace (x <? y) with true by (symmetry; apply Z.ltb_lt; lia). reflexivity.
@@ -445,37 +454,146 @@ Proof.
             [apply Z.leb_gt in E2; lia | apply Z.leb_gt in E1; lia | apply Z.leb_gt in E1; lia]. }
         cbn. replace (x <? y) with false by (symmetry; apply Z.ltb_ge; lia).
         replace (y <? x) with true by (symmetry; apply Z.ltb_lt; lia). reflexivity.
-    + rewrite cn_main; try assumption; [|cbn [same_head]; congruence|lia].
-      unfold key. cbn [key_aux]. rewrite Hx, Hy. cbn [flush app]. reflexivity.
+    + rewrite cn_main; [|cbn [same_head]; congruence|lia].
+      unfold gkey. cbn [key_aux_w]. rewrite Hx, Hy. cbn [flush app]. reflexivity.
 Qed.
 
-(* ---------------------------------------------------------------- consequences *)
+(* ---------------------------------------------------------------- the two accumulators *)
 
-Theorem compare_natural_range : forall a b, short_runs a -> short_runs b ->
+Lemma key_aux_w_id : forall f, (forall z, f z = z) -> forall s acc, key_aux_w f s acc = key_aux s acc.
+Proof.
+  intros f Hf. induction s as [|c t IH]; intros acc; cbn [key_aux_w key_aux]; [reflexivity|].
+  destruct (digit c); [rewrite Hf; apply IH | rewrite IH; reflexivity].
+Qed.
+
+Lemma gkey_wide : forall s, gkey false s = key s.
+Proof. intros s. unfold gkey, key. apply key_aux_w_id. reflexivity. Qed.
+
+Lemma int_of_true : forall z, int_of true z = int64 z.
+Proof. reflexivity. Qed.
+
+Lemma gkey_wrap : forall s, gkey true s = wkey s.
+Proof. reflexivity. Qed.
+
+Lemma int64_small : forall z, - 2 ^ 63 <= z < 2 ^ 63 -> int64 z = z.
+Proof. intros z Hz. unfold int64. rewrite Z.mod_small by lia. lia. Qed.
+
+Lemma digit_range : forall c, digit c = true -> 0 <= c - 48 <= 9.
+Proof. intros c H. unfold digit in H. apply andb_prop in H. destruct H as [H1 H2]. apply Z.leb_le in H1, H2. lia. Qed.
+
+(* the first number of a key that continues a run is at least the value read so far *)
+Lemma key_aux_some_ge : forall t v, 0 <= v -> exists v' rest, key_aux t (Some v) = TNum v' :: rest /\ v <= v'.
+Proof.
+  induction t as [|c t IH]; intros v Hv; cbn [key_aux].
+  - exists v, []. split; [reflexivity|lia].
+  - destruct (digit c) eqn:Hd.
+    + pose proof (digit_range c Hd).
+      destruct (IH (v * 10 + (c - 48)) ltac:(lia)) as (v' & rest & E & L). exists v', rest. split; [exact E|lia].
+    + exists v, (TByte c :: key_aux t None). split; [reflexivity|lia].
+Qed.
+
+Definition acc_ok (acc : option Z) : Prop := match acc with Some v => 0 <= v | None => True end.
+
+Lemma wkey_fit_aux : forall s acc, acc_ok acc -> forallb tok_fits (key_aux s acc) = true ->
+  key_aux_w int64 s acc = key_aux s acc.
+Proof.
+  induction s as [|c t IH]; intros acc Ha Hf; cbn [key_aux_w key_aux] in *; [reflexivity|].
+  destruct (digit c) eqn:Hd.
+  - pose proof (digit_range c Hd) as Hc.
+    set (u := match acc with Some v => v * 10 + (c - 48) | None => c - 48 end) in *.
+    assert (Hu : 0 <= u) by (destruct acc as [v|]; cbn [acc_ok] in Ha; subst u; lia).
+    destruct (key_aux_some_ge t u Hu) as (v' & rest & E & L).
+    assert (Hlt : v' < 2 ^ 63).
+    { rewrite E in Hf. cbn [forallb tok_fits] in Hf. apply andb_prop in Hf. destruct Hf as [Hf _]. apply Z.ltb_lt in Hf. exact Hf. }
+    rewrite int64_small by lia. apply IH; [exact Hu | exact Hf].
+  - rewrite forallb_app in Hf. apply andb_prop in Hf. destruct Hf as [_ Hf]. cbn [forallb tok_fits andb] in Hf.
+    rewrite IH; [reflexivity | exact I | exact Hf].
+Qed.
+
+(* on the exact domain the 64-bit reading is the mathematical one *)
+Lemma wkey_fit : forall s, runs_fit s -> wkey s = key s.
+Proof. intros s H. unfold wkey, key. apply wkey_fit_aux; [exact I | exact H]. Qed.
+
+Lemma pow10_18 : 10 ^ 18 < 2 ^ 63.
+Proof. reflexivity. Qed.
+
+(* at most 18 digits per run is inside the exact domain *)
+Lemma short_fit_aux : forall s,
+  (forall k v, runs_within 18 s k = true -> (k <= 18)%nat -> 0 <= v < 10 ^ Z.of_nat k ->
+     forallb tok_fits (key_aux s (Some v)) = true) /\
+  (runs_within 18 s 0 = true -> forallb tok_fits (key_aux s None) = true).
+Proof.
+  pose proof pow10_18 as P18.
+  induction s as [|c t [IHs IHn]]; split.
+  - intros k v _ Hk Hv. cbn [key_aux flush forallb tok_fits]. rewrite andb_true_r. apply Z.ltb_lt.
+    assert (10 ^ Z.of_nat k <= 10 ^ 18) by (apply Z.pow_le_mono_r; lia). lia.
+  - reflexivity.
+  - intros k v Hr Hk Hv. cbn [key_aux runs_within] in *. destruct (digit c) eqn:Hd.
+    + apply andb_prop in Hr. destruct Hr as [Hk' Hr]. apply Nat.ltb_lt in Hk'.
+      pose proof (digit_range c Hd) as Hc.
+      assert (Hp : 10 ^ Z.of_nat (S k) = 10 * 10 ^ Z.of_nat k) by (rewrite Nat2Z.inj_succ, Z.pow_succ_r by lia; reflexivity).
+      apply (IHs (S k)); [exact Hr | lia | lia].
+    + cbn [flush app forallb tok_fits]. apply andb_true_intro. split.
+      * apply Z.ltb_lt. assert (10 ^ Z.of_nat k <= 10 ^ 18) by (apply Z.pow_le_mono_r; lia). lia.
+      * cbn [andb]. apply IHn. exact Hr.
+  - intros Hr. cbn [key_aux runs_within] in *. destruct (digit c) eqn:Hd.
+    + apply andb_prop in Hr. destruct Hr as [_ Hr].
+      pose proof (digit_range c Hd) as Hc.
+      apply (IHs 1%nat); [exact Hr | lia | change (10 ^ Z.of_nat 1) with 10; lia].
+    + cbn [flush app forallb tok_fits andb]. apply IHn. exact Hr.
+Qed.
+
+Theorem short_runs_fit : forall s, short_runs s -> runs_fit s.
+Proof. intros s H. apply (proj2 (short_fit_aux s)). exact H. Qed.
+
+(* ---------------------------------------------------------------- the theorems *)
+
+(* the code as it stands, ALL strings: the key order on the 64-bit reading of the digit runs *)
+Theorem compare_natural_wkey : forall a b, compare_natural a b = Ok (key_cmp (wkey a) (wkey b)).
+Proof. intros a b. unfold compare_natural. rewrite cn_key_w. reflexivity. Qed.
+
+(* the unbounded-accumulator variant, ALL strings: the key order *)
+Theorem compare_natural_wide_key : forall a b, compare_natural_wide a b = Ok (key_cmp (key a) (key b)).
+Proof. intros a b. unfold compare_natural_wide. rewrite cn_key_w, !gkey_wide. reflexivity. Qed.
+
+(* the code as it stands on the exact domain *)
+Theorem compare_natural_key : forall a b, runs_fit a -> runs_fit b ->
+  compare_natural a b = Ok (key_cmp (key a) (key b)).
+Proof. intros a b Ha Hb. rewrite compare_natural_wkey, !wkey_fit by assumption. reflexivity. Qed.
+
+Theorem compare_natural_agrees_wide : forall a b, runs_fit a -> runs_fit b ->
+  compare_natural a b = compare_natural_wide a b.
+Proof. intros a b Ha Hb. rewrite compare_natural_key, compare_natural_wide_key by assumption. reflexivity. Qed.
+
+(* order laws: no hypothesis *)
+Theorem compare_natural_range : forall a b,
   exists c, compare_natural a b = Ok c /\ (c = -1 \/ c = 0 \/ c = 1).
 Proof.
-  intros a b Ha Hb. rewrite compare_natural_key by assumption. eexists. split; [reflexivity|apply key_cmp_range].
+  intros a b. rewrite compare_natural_wkey. eexists. split; [reflexivity|apply key_cmp_range].
 Qed.
 
-Theorem compare_natural_antisym : forall a b, short_runs a -> short_runs b ->
+Theorem compare_natural_antisym : forall a b,
   exists c, compare_natural a b = Ok c /\ compare_natural b a = Ok (- c).
 Proof.
-  intros a b Ha Hb. rewrite !compare_natural_key by assumption. eexists. split; [reflexivity|].
+  intros a b. rewrite !compare_natural_wkey. eexists. split; [reflexivity|].
   f_equal. apply key_cmp_antisym.
 Qed.
 
-Theorem compare_natural_trans : forall a b c, short_runs a -> short_runs b -> short_runs c ->
+Theorem compare_natural_trans : forall a b c,
   exists x y z, compare_natural a b = Ok x /\ compare_natural b c = Ok y /\ compare_natural a c = Ok z /\
     (x <= 0 -> y <= 0 -> z <= 0) /\ (x <= 0 -> y <= 0 -> z = 0 -> x = 0 /\ y = 0).
 Proof.
-  intros a b c Ha Hb Hc. rewrite !compare_natural_key by assumption. do 3 eexists.
+  intros a b c. rewrite !compare_natural_wkey. do 3 eexists.
   split; [reflexivity|]. split; [reflexivity|]. split; [reflexivity|]. split.
   - apply key_cmp_trans.
   - intros Hx Hy Hz. apply key_cmp_zero in Hz. rewrite <- Hz in Hy. rewrite <- Hz.
-    pose proof (key_cmp_antisym (key a) (key b)). lia.
+    pose proof (key_cmp_antisym (wkey a) (wkey b)). lia.
 Qed.
 
-Theorem compare_natural_zero : forall a b, short_runs a -> short_runs b ->
+Theorem compare_natural_refl : forall a, compare_natural a a = Ok 0.
+Proof. intros a. rewrite compare_natural_wkey. f_equal. apply key_cmp_zero. reflexivity. Qed.
+
+Theorem compare_natural_zero : forall a b, runs_fit a -> runs_fit b ->
   (compare_natural a b = Ok 0 <-> key a = key b).
 Proof.
   intros a b Ha Hb. rewrite compare_natural_key by assumption. split.
@@ -502,20 +620,36 @@ Proof.
   reflexivity.
 Qed.
 
+(* any two digit strings whose values fit an int (leading zeros do not count) *)
 Theorem compare_natural_numeric : forall a b, a <> [] -> b <> [] ->
-  forallb digit a = true -> forallb digit b = true -> (length a <= 18)%nat -> (length b <= 18)%nat ->
+  forallb digit a = true -> forallb digit b = true -> dec_val a < 2 ^ 63 -> dec_val b < 2 ^ 63 ->
   compare_natural a b = Ok (sgn_cmp (dec_val a) (dec_val b)).
 Proof.
   intros a b Na Nb Da Db La Lb.
-  assert (Hs : forall s k, forallb digit s = true -> (k + length s <= 18)%nat -> runs_within 18 s k = true).
-  { induction s as [|c t IH]; intros k H L; [reflexivity|].
-    cbn [forallb] in H. apply andb_prop in H. destruct H as [Hc Ht].
-    cbn [runs_within length] in *. rewrite Hc. apply andb_true_intro. split; [apply Nat.ltb_lt; lia|apply IH; [exact Ht|lia]]. }
-  rewrite compare_natural_key by (apply Hs; [assumption|lia]).
+  assert (Fa : runs_fit a).
+  { unfold runs_fit. rewrite (key_digits a Na Da). cbn [forallb tok_fits]. rewrite andb_true_r. apply Z.ltb_lt. exact La. }
+  assert (Fb : runs_fit b).
+  { unfold runs_fit. rewrite (key_digits b Nb Db). cbn [forallb tok_fits]. rewrite andb_true_r. apply Z.ltb_lt. exact Lb. }
+  rewrite compare_natural_key by assumption.
   rewrite (key_digits a Na Da), (key_digits b Nb Db).
   unfold key_cmp. cbn [tok_cmp lex_cmp]. destruct (sgn_cmp (dec_val a) (dec_val b) =? 0) eqn:E; [apply Z.eqb_eq in E; rewrite E|]; reflexivity.
 Qed.
 
-(* the shape constants of the Go function the model was written against *)
-Lemma cn_shape : cn_ncalls_compare = 4 /\ cn_ncalls_parseint = 2 /\ cn_ncalls_parsestr = 2.
-Proof. repeat split; reflexivity. Qed.
+(* ---------------------------------------------------------------- beyond the domain *)
+
+(* "18446744073709551616" (2^64) against "0": reported equal; "9223372036854775808" (2^63, the
+   smallest run that does not fit, 19 digits) against "1": reported smaller.  The variant with
+   the unbounded accumulator orders both correctly. *)
+Definition two64 : list Z := [49;56;52;52;54;55;52;52;48;55;51;55;48;57;53;53;49;54;49;54].
+Definition two63 : list Z := [57;50;50;51;51;55;50;48;51;54;56;53;52;55;55;53;56;48;56].
+
+Theorem overflow_refuted :
+  compare_natural two64 [48] = Ok 0 /\ normal_form two64 <> normal_form [48] /\ key two64 <> key [48] /\
+  compare_natural_wide two64 [48] = Ok 1 /\
+  compare_natural two63 [49] = Ok (-1) /\ dec_val two63 > dec_val [49] /\
+  compare_natural_wide two63 [49] = Ok 1 /\
+  ~ runs_fit two63 /\ ~ runs_fit two64.
+Proof.
+  unfold runs_fit.
+  repeat split; try (vm_compute; reflexivity); intros H; vm_compute in H; discriminate.
+Qed.
